@@ -387,6 +387,7 @@ PROPS["C09"] = {
     "legs": [
         {"test": "TestC09", "kind": "rapid", "quick": {"checks": 12000, "shards": 3, "shrink": "15s"}, "thorough": {"checks": 120000, "shards": 10}},
         {"test": "TestC09Collide", "kind": "rapid", "quick": {"checks": 8000, "shards": 2, "shrink": "15s"}, "thorough": {"checks": 80000, "shards": 6}},
+        {"test": "TestC09DynamicGroups", "kind": "rapid", "quick": {"checks": 5000, "shards": 1}, "thorough": {"checks": 80000, "shards": 4}},
     ],
     "min_nontrivial": {"quick": 2000, "thorough": 30000},
     "min_labels": {"colliding-tuples": 500},
